@@ -697,9 +697,23 @@ def r3_ranges(program, rep):
         elif isinstance(r[0].value, ast.Tuple) and \
                 len(r[0].value.elts) == 2:
             flag_ = chain(r[0].value.elts[1])
+    if flag_ is None and rem:
+        raise AnalysisError("_refine_upcheck: whether the merge changed is "
+                            "not reported through a flag variable (e.g. it "
+                            "is computed by comparing the members before and "
+                            "after); that form is not analysed")
     if flag_ is not None and rem:
         flag = flag_
         binds = [b_ for b_ in T.binds if b_.var == flag]
+        if any(b_.mode != "assign" or (
+                b_.value is not None and not isinstance(b_.value,
+                                                        ast.Constant) and
+                any(chain(x) == flag for x in ast.walk(b_.value)))
+               for b_ in binds):
+            # changed = changed or <...>, changed |= <...>: accumulated
+            raise AnalysisError("_refine_upcheck: the flag reported with "
+                                "the merge is accumulated from its own "
+                                "previous value; not analysed")
         rn = rem[0][1]
         loops = [x for x in ast.walk(up) if isinstance(x, (ast.For,
                                                             ast.While))]
